@@ -43,6 +43,8 @@ TMon ==
   /\ LET v == IF T.ev = "killrun"
               THEN Bad({i \in DOMAIN T.before : T.before[i].kind = "final" /\ ~T.before[i].decodes}, "C10:partial-file-named-cptv")
                    \cup Bad({i \in DOMAIN T.after : T.after[i].kind # "final" \/ ~T.after[i].decodes}, "C10:debris-after-cleanup")
+                   \* names that were in use (the other recorder's open or finished recording) when a recording started
+                   \cup (IF "reused" \in DOMAIN T /\ T.reused > 0 THEN {"C10:recording-started-under-a-name-in-use"} ELSE {})
               ELSE IF T.ev = "observe"
               THEN (IF T.decodes THEN {} ELSE {"C10:observer-saw-partial-cptv"})
               ELSE {}
